@@ -114,6 +114,7 @@ func checkCanon(c *mon.Ctx, v *ref.Value, text []byte) []byte {
 		return nil
 	}
 	c.Count("canonicalised")
+	c.Retain("canon", "the result of CanonicalJSON", out)
 	pv, _, perr := ref.Parse(out)
 	if perr != nil {
 		sig := "canon:output-invalid-json:other"
@@ -148,9 +149,11 @@ func checkCanon(c *mon.Ctx, v *ref.Value, text []byte) []byte {
 	if err != nil || !bytes.Equal(out2, out) {
 		c.Failf("canon:not-idempotent", "CanonicalJSON(%q) = %q, err %v", out, out2, err)
 	}
-	if av := gmsl.CanonicalJSONAssumeValid(text); !bytes.Equal(av, out) {
+	av := gmsl.CanonicalJSONAssumeValid(text)
+	if !bytes.Equal(av, out) {
 		c.Failf("canon:assume-valid-differs", "CanonicalJSONAssumeValid(%q) = %q, CanonicalJSON = %q", text, av, out)
 	}
+	c.Retain("canon", "the result of CanonicalJSONAssumeValid", av)
 	if f.keyNeedsEscape {
 		c.Count("with_key_needing_escape")
 	}
@@ -208,6 +211,7 @@ func checkEnforced(c *mon.Ctx, _ *ref.Value, text []byte, versions []gmsl.RoomVe
 		}
 		if want {
 			c.Count("enforced_accept")
+			c.Retain("canon", "the result of EnforcedCanonicalJSON", out)
 			if perr == nil && !bytes.Equal(out, plain) {
 				c.Failf("enforced:output-differs", "EnforcedCanonicalJSON(%q, %s) = %q, CanonicalJSON = %q", text, ver, out, plain)
 			}
